@@ -64,6 +64,7 @@ Shape(name, base) ==
       [] name = "wide3" -> <<1000, 1001, 1002>>                  \* three 2-column glyphs: 6 columns, 3 characters
       [] name = "edge" -> Run(W - 1, base) \o <<1000>>          \* a 2-column glyph that does not fit the row
       [] name = "tab"  -> Run(1, base) \o <<TAB>> \o Run(1, base + 1)
+      [] name = "utab" -> <<233>> \o Run(1, base) \o <<TAB>> \o Run(1, base + 1)          \* a 2-byte character in front of the tab
       [] name = "tt"   -> <<TAB, TAB>>
 
 (* a log text: unique tag glyph first so that lines are distinguishable *)
